@@ -176,6 +176,11 @@ fn main() {
             let code = mon::c19::expect(&args[2], args.get(3).expect("out file"));
             std::process::exit(code);
         }
+        "coldstart" => {
+            let threads: usize = args.get(2).and_then(|s| s.parse().ok()).unwrap_or(16);
+            let seed: u64 = args.get(3).and_then(|s| s.parse().ok()).unwrap_or(1);
+            std::process::exit(mon::c07::coldstart(threads, seed));
+        }
         "seek-rounding" => {
             let code = mon::c19::seek_rounding(&args[2], args.get(3).expect("out file"));
             std::process::exit(code);
